@@ -286,7 +286,7 @@ var wrongTypeValues = []string{
 func Mutate(t *rapid.T, root *JV) Mutation {
 	var nodes []node
 	collect(root, "", nil, 0, "", &nodes)
-	n := nodes[rapid.IntRange(0, len(nodes)-1).Draw(t, "mut/node")]
+	n := nodes[uniform(t, "mut/node", len(nodes))]
 
 	kinds := []string{"null", "wrong-type", "delete", "hostile-string", "hostile-number"}
 	switch n.v.Kind {
@@ -309,7 +309,7 @@ func Mutate(t *rapid.T, root *JV) Mutation {
 	if n.parent == nil {
 		kinds = []string{"extra-root-key", "extra-root-key", "root-rename", "root-wrap-array", "root-null", "dup-root", "deep-array", "deep-object", "unknown-field"}
 	}
-	kind := kinds[rapid.IntRange(0, len(kinds)-1).Draw(t, "mut/kind")]
+	kind := kinds[uniform(t, "mut/kind", len(kinds))]
 	m := Mutation{Kind: kind, Path: n.path}
 
 	switch kind {
@@ -333,12 +333,12 @@ func Mutate(t *rapid.T, root *JV) Mutation {
 		if len(n.v.Obj) == 0 {
 			n.v.Obj = append(n.v.Obj, JKV{"a", JRaw("1")}, JKV{"a", JRaw("1")})
 		} else {
-			kv := n.v.Obj[rapid.IntRange(0, len(n.v.Obj)-1).Draw(t, "mut/dk")]
+			kv := n.v.Obj[uniform(t, "mut/dk", len(n.v.Obj))]
 			n.v.Obj = append(n.v.Obj, JKV{kv.K, kv.V.Clone()})
 		}
 	case "dup-key-other":
 		if len(n.v.Obj) > 0 {
-			kv := n.v.Obj[rapid.IntRange(0, len(n.v.Obj)-1).Draw(t, "mut/dk")]
+			kv := n.v.Obj[uniform(t, "mut/dk", len(n.v.Obj))]
 			other := JRaw(pick(t, "mut/dkv", wrongTypeValues))
 			if chance(t, "mut/dk/front", 50) {
 				n.v.Obj = append([]JKV{{kv.K, other}}, n.v.Obj...)
@@ -356,13 +356,13 @@ func Mutate(t *rapid.T, root *JV) Mutation {
 		n.v.Arr = append(n.v.Arr, JNull())
 	case "elem-null":
 		if len(n.v.Arr) > 0 {
-			n.v.Arr[rapid.IntRange(0, len(n.v.Arr)-1).Draw(t, "mut/en")] = JNull()
+			n.v.Arr[uniform(t, "mut/en", len(n.v.Arr))] = JNull()
 		} else {
 			n.v.Arr = append(n.v.Arr, JNull())
 		}
 	case "dup-elem":
 		if len(n.v.Arr) > 0 {
-			n.v.Arr = append(n.v.Arr, n.v.Arr[rapid.IntRange(0, len(n.v.Arr)-1).Draw(t, "mut/de")].Clone())
+			n.v.Arr = append(n.v.Arr, n.v.Arr[uniform(t, "mut/de", len(n.v.Arr))].Clone())
 		}
 	case "empty-array":
 		n.v.Arr = nil
